@@ -658,6 +658,7 @@ def subject_legacy(r, nr):
     chosen = [k for k in optional if r.random() < 0.6]
     typed_dates = r.random() < 0.7
     mixed_types = r.random() < 0.4
+    weird_extras = r.random() < 0.25
     for i, d in enumerate(src):
         d.SOPClassUID = sop
         d.file_meta.MediaStorageSOPClassUID = sop
@@ -672,6 +673,11 @@ def subject_legacy(r, nr):
         if typed_dates:       # the per-frame acquisition date time is only derived from date / time objects
             d.AcquisitionDate = DA('20200101')
             d.AcquisitionTime = TM('010203')
+        if weird_extras:
+            # legal but unusual: a single-frame instance that carries (empty) functional group sequences of its own
+            from pydicom.sequence import Sequence as _Seq
+            d.SharedFunctionalGroupsSequence = _Seq([])
+            d.PerFrameFunctionalGroupsSequence = _Seq([])
         for k in chosen:
             v = optional[k]
             if k == 'ImageComments':
@@ -686,7 +692,7 @@ def subject_legacy(r, nr):
 
     def call(legacy_datasets):
         return cls(legacy_datasets=legacy_datasets, **ids)
-    return {'name': 'legacy.' + cls.__name__, 'variant': (which, n, len(chosen), typed_dates, mixed_types), 'call': call,
+    return {'name': 'legacy.' + cls.__name__, 'variant': (which, n, len(chosen), typed_dates, mixed_types, weird_extras), 'call': call,
             'inputs': {'legacy_datasets': src}}
 
 
